@@ -760,3 +760,47 @@ package expr
 //@       ensures result == isMapSpec(dt)
 //@       modifies nothing
 //@   ensures* map.path.parameter.rejected: isMapSpec(old(a.Type)) ==> len(captured(verr).Errors) > old(len(verr.Errors))
+
+// ---- where a security scheme's credential travels (C06) -------------------------------------------
+// "scheme location inference and implicit Authorization header": after Finalize every scheme of every
+// requirement of an HTTP endpoint says where its credential is read from. Basic auth: the Authorization header.
+// API key / JWT / OAuth2: the place the design maps the tagged payload attribute to (findKey, abstracted as two
+// functions of endpoint and attribute name); when the design maps it nowhere, the Authorization header, and then
+// the endpoint's header table maps "Authorization" to that attribute (ghost record of the Map call).
+//@ smt (declare-fun fkName (Iface String) String)
+//@ smt (declare-fun fkIn (Iface String) String)
+//@ smt (declare-fun taggedSpec (Int String) String)
+//@ ghost spec var wireMapped (Array Int (Array String String))
+//@ func findKey
+//@   params exp keyAtt
+//@   property C06
+//@   opt inline none
+//   -- ASSUMED: a key that is found has a non-empty wire name (ElemName of a mapped key)
+//@   callspec (*MappedAttributeExpr).FindKey params ma k
+//@       ensures result1 ==> result0 != ""
+//@   ensures* implicit.location.is.header: typeIs(exp, *HTTPEndpointExpr) && keyAtt != "" && result0 == "" ==> result1 == "header"
+//@   ensures* implicit.location.is.metadata: typeIs(exp, *GRPCEndpointExpr) && keyAtt != "" && result0 == "" ==> result1 == "metadata"
+//@ func (*HTTPEndpointExpr).Finalize
+//@   params e
+//@   property C06
+//@   locals reqLen:int req:*expr.SecurityExpr dupReq:*expr.SecurityExpr sch:*expr.SchemeExpr field:string attr:*expr.AttributeExpr r:*expr.HTTPResponseExpr herr:*expr.HTTPErrorExpr
+//@   opt loopframes none
+//@   opt inline none
+//@   unknown_calls_preserve HTTPEndpointExpr.MethodExpr, HTTPEndpointExpr.Headers, MethodExpr.Payload, fieldsOf(SchemeExpr), elems(*SchemeExpr)
+//@   callspec TaggedAttribute params a tag
+//@       ensures result == taggedSpec(a, tag)
+//@       modifies nothing
+//@   callspec findKey params exp keyAtt
+//@       ensures result0 == fkName(exp, keyAtt) && result1 == fkIn(exp, keyAtt)
+//@   callspec (*MappedAttributeExpr).Map params ma elemName attName
+//@       ensures wireMapped == store(old(wireMapped), ma, store(select(old(wireMapped), ma), elemName, attName))
+//@       modifies wireMapped
+//@   let ep = local(e)
+//@   let s = prev(2, ranged(2)[rangeidx(2) + 1])
+//@   let kind = prev(2, s.Kind)
+//@   let tag = ite(kind == APIKeyKind, "security:apikey:" + prev(2, s.SchemeName), ite(kind == JWTKind, "security:token", "security:accesstoken"))
+//@   let field = taggedSpec(prev(2, ep.MethodExpr.Payload), tag)
+//@   let explicit = fkName(iface(*HTTPEndpointExpr, ep), field)
+//@   loop 2 step* basic.auth.in.authorization.header: kind == BasicAuthKind ==> s.In == "header" && s.Name == "Authorization"
+//@   loop 2 step* explicit.location: (kind == APIKeyKind || kind == JWTKind || kind == OAuth2Kind) && explicit != "" ==> s.Name == explicit && s.In == fkIn(iface(*HTTPEndpointExpr, ep), field)
+//@   loop 2 step* implicit.authorization.header: (kind == APIKeyKind || kind == JWTKind || kind == OAuth2Kind) && field != "" && explicit == "" ==> s.Name == "Authorization" && s.In == "header" && select(select(wireMapped, ep.Headers), "Authorization") == field
